@@ -1052,13 +1052,16 @@ impl SolarDay {
       y += 1;
       i = 0;
     }
-    let mut term: SolarTerm = SolarTerm::from_index(y, i as isize);
-    let mut day: SolarDay = term.get_julian_day().get_solar_day();
-    while self.is_before(day) {
+    // 节气在儒略历和远期公历中的日期会漂移，本月可能还含有第3个节气，所以从下一个节气开始往前找；
+    // 用儒略日数比较而不构造公历日，公元1年1月初的日期属于上一年（公元前1年）的冬至
+    let mut term: SolarTerm = SolarTerm::from_index(y, i as isize + 1);
+    let n: isize = (self.get_julian_day().get_day() + 0.5).floor() as isize;
+    let mut d: isize = Self::term_day_number(&term);
+    while n < d {
       term = term.next(-1);
-      day = term.get_julian_day().get_solar_day();
+      d = Self::term_day_number(&term);
     }
-    SolarTermDay::new(term, self.subtract(day) as usize)
+    SolarTermDay::new(term, (n - d) as usize)
   }
 
   /// 儒略日
@@ -1073,6 +1076,11 @@ impl SolarDay {
   /// ```
   pub fn get_julian_day(&self) -> JulianDay {
     JulianDay::from_ymd_hms(self.get_year(), self.get_month(), self.day, 0, 0, 0)
+  }
+
+  /// 节气交节时刻所在公历日的儒略日数（与 term.get_julian_day().get_solar_day() 是同一天：时刻先四舍五入到秒）
+  fn term_day_number(term: &SolarTerm) -> isize {
+    (term.get_julian_day().get_day() + 0.5 + 0.5 / 86400.0).floor() as isize
   }
 
   pub fn is_before(&self, target: SolarDay) -> bool {
@@ -1560,8 +1568,10 @@ impl SolarTime {
       y += 1;
       i = 0;
     }
-    let mut term: SolarTerm = SolarTerm::from_index(y, i as isize);
-    while self.is_before(term.get_julian_day().get_solar_time()) {
+    // 同 SolarDay::get_term_day：从下一个节气开始往前找，按儒略日比较（交节时刻四舍五入到秒）
+    let mut term: SolarTerm = SolarTerm::from_index(y, i as isize + 1);
+    let jd: f64 = self.get_julian_day().get_day();
+    while jd < term.get_julian_day().get_day() - 0.5 / 86400.0 {
       term = term.next(-1);
     }
     term
